@@ -1,14 +1,38 @@
 use super::{constant::*, ConfigEntity};
 use crate::{base::ResourceType, logging, utils, Error, Result};
+use crate::vsync::{lazy_static, RwLock, RwLockReadGuard, RwLockWriteGuard};
 use serde_yaml;
-use std::cell::RefCell;
 use std::env;
 use std::fs::File;
 use std::io::prelude::*;
 use std::path::Path;
 
-thread_local! {
-    static GLOBAL_CONFIG : RefCell<ConfigEntity> = RefCell::new(ConfigEntity::new());
+/// The effective configuration of the process. It is shared by all threads: a
+/// configuration installed by `init_*` on one thread governs the resources
+/// touched from any other thread as well.
+struct GlobalConfig(RwLock<ConfigEntity>);
+
+// the accessors mirror the `thread_local!` + `RefCell` interface this static used to have
+impl GlobalConfig {
+    fn with<R>(&self, f: impl FnOnce(&Self) -> R) -> R {
+        f(self)
+    }
+
+    fn try_with<R>(&self, f: impl FnOnce(&Self) -> R) -> std::result::Result<R, Error> {
+        Ok(f(self))
+    }
+
+    fn borrow(&self) -> RwLockReadGuard<'_, ConfigEntity> {
+        self.0.read().unwrap()
+    }
+
+    fn borrow_mut(&self) -> RwLockWriteGuard<'_, ConfigEntity> {
+        self.0.write().unwrap()
+    }
+}
+
+lazy_static! {
+    static ref GLOBAL_CONFIG: GlobalConfig = GlobalConfig(RwLock::new(ConfigEntity::new()));
 }
 
 pub fn reset_global_config(entity: ConfigEntity) {
